@@ -105,7 +105,7 @@ Lemma parse_unfold g c1 rest1 :
     if Ascii.eqb c1 "#" then PNone
     else if is_slash c1 && match rest1 with [] => true | _ => false end then PNone
     else if Ascii.eqb c1 "!"
-         then match rest1 with [] => PUnsup | _ => parse_body g true rest1 end
+         then match rest1 with [] => (if g then PNone else PErr) | _ => parse_body g true rest1 end
          else parse_body g false (c1 :: rest1).
 Proof.
   intros Hp Hs. unfold parse. rewrite list_of_string_of_list, Hp. cbn [negb].
